@@ -156,7 +156,8 @@ PROPS = {
 
 LEVEL_TEXT = ("Bounded symbolic model checking of the real code: the harness and every regen-ledger function it reaches are "
               "executed from go/ssa with symbolic inputs; each assertion is decided by an SMT solver for all values within the "
-              "stated bounds, on every feasible path; a satisfying assignment is replayed on the natively compiled code before "
-              "it is reported.")
+              "stated bounds, on every feasible path. A satisfying assignment of a kernel harness is replayed on the natively "
+              "compiled code before it is reported; one of a handler-level harness is reported with its model (no native "
+              "environment for the table/bank models exists).")
 
 NOT_APPLICABLE = {}
